@@ -107,16 +107,17 @@ CastleMoves(b, w, cm) ==
       (IF HasBit(cm, abit) /\ b[k0-1] = EMPTY /\ b[k0-2] = EMPTY /\ b[k0-3] = EMPTY /\ b[k0-4] = rk
            /\ ~Attacked(b,k0,~w) /\ ~Attacked(b,k0-1,~w) THEN {Mv(k0,k0-2,0)} ELSE {})
 
-PseudoB(b, w, cm, epsq) ==
-   UNION { LET pc == b[s] k == Kind(pc) IN
-           IF ~Own(pc, w) THEN {}
-           ELSE IF k = 1 THEN { Mv(s,t,0) : t \in {u \in KingT[s] : ~Own(b[u], w)} }
-           ELSE IF k = 2 THEN SliderMoves(b, s, w, 1..8)
-           ELSE IF k = 3 THEN SliderMoves(b, s, w, 1..4)
-           ELSE IF k = 4 THEN SliderMoves(b, s, w, 5..8)
-           ELSE IF k = 5 THEN { Mv(s,t,0) : t \in {u \in KnightT[s] : ~Own(b[u], w)} }
-           ELSE PawnMoves(b, s, w, epsq)
-         : s \in {u \in Sq : b[u] # EMPTY} } \cup CastleMoves(b, w, cm)
+\* pseudo-legal moves of the piece standing on s (castling belongs to the king)
+PieceMovesB(b, w, cm, epsq, s) ==
+   LET pc == b[s] k == Kind(pc) IN
+   IF ~Own(pc, w) THEN {}
+   ELSE IF k = 1 THEN { Mv(s,t,0) : t \in {u \in KingT[s] : ~Own(b[u], w)} } \cup CastleMoves(b, w, cm)
+   ELSE IF k = 2 THEN SliderMoves(b, s, w, 1..8)
+   ELSE IF k = 3 THEN SliderMoves(b, s, w, 1..4)
+   ELSE IF k = 4 THEN SliderMoves(b, s, w, 5..8)
+   ELSE IF k = 5 THEN { Mv(s,t,0) : t \in {u \in KnightT[s] : ~Own(b[u], w)} }
+   ELSE PawnMoves(b, s, w, epsq)
+PseudoB(b, w, cm, epsq) == UNION { PieceMovesB(b, w, cm, epsq, s) : s \in {u \in Sq : b[u] # EMPTY} }
 Pseudo(p) == PseudoB(p.b, p.w, p.c, p.e)
 
 IsEpCapture(b, epsq, m) == Kind(b[m.from]) = 6 /\ epsq # NoSq /\ m.to = epsq /\ X(m.from) # X(m.to)
@@ -134,6 +135,10 @@ AfterB(b, epsq, m) ==
 
 LegalB(b, w, cm, epsq) == { m \in PseudoB(b, w, cm, epsq) : ~InCheckB(AfterB(b, epsq, m), w) }
 Legal(p) == LegalB(p.b, p.w, p.c, p.e)
+\* membership test that does not enumerate all moves of the position
+IsLegalMove(p, m) == /\ m.from \in Sq /\ m.to \in Sq
+                     /\ m \in PieceMovesB(p.b, p.w, p.c, p.e, m.from)
+                     /\ ~InCheckB(AfterB(p.b, p.e, m), p.w)
 
 CastleSqMask == [s \in Sq |-> IF s = 0 THEN 14 ELSE IF s = 4 THEN 12 ELSE IF s = 7 THEN 13
                           ELSE IF s = 56 THEN 11 ELSE IF s = 60 THEN 3 ELSE IF s = 63 THEN 7 ELSE 15]
